@@ -127,7 +127,8 @@ impl TraceLenSummary {
 
     /// Returns `trace_len` rounded up to the next power of two.
     pub fn padded_trace_len(&self) -> usize {
-        (self.trace_len() + NUM_RAND_ROWS).next_power_of_two()
+        // the main trace is always followed by at least one HALT row
+        (self.trace_len().max(self.main_trace_len + 1) + NUM_RAND_ROWS).next_power_of_two()
     }
 
     /// Returns the percent (0 - 100) of the steps that were added to the trace to pad it to the
